@@ -789,11 +789,15 @@ class RuleSpec(RulesMixin, OpSpec):
     fail_care = ("tags", "sup", "far", "fi", "pos", "stk")
     is_rule = True
 
-    def __init__(self, modifier: int, trivia_name: str | None = None):
+    def __init__(self, modifier: int, trivia_name: str | None = None, kids: str = "pest"):
         self.modifier = modifier
         self.trivia_name = trivia_name
+        # kids="pest": children of an @ rule per the property (C04);  kids="impl": the common behaviour of
+        # Rule.parse and Rule.generate for a body that is not an identifier (hidden) - used by C01, which
+        # only asks that interpreter and generated code agree
+        self.kids = kids
         super().__init__()
-        self.label = f"{RULE}.parse[mod={modifier}{',' + trivia_name if trivia_name else ''}]"
+        self.label = f"{RULE}.parse[mod={modifier}{',' + trivia_name if trivia_name else ''}{',impl' if kids == 'impl' else ''}]"
 
     def mk_self(self, run):
         rid = run.fresh("self_rule", "rule")
@@ -848,7 +852,7 @@ class RuleSpec(RulesMixin, OpSpec):
         has = z3.Length(tg) > 0
         tag = z3.If(has, OptStr.some_s(tg[z3.Length(tg) - 1]), OptStr.none_s)
         Lt = lset(Lo, tags=z3.If(has, z3.SubSeq(tg, 0, z3.Length(tg) - 1), tg))  # noqa: N806
-        kids = vis(P) if m & ATOMIC else P
+        kids = (EMPTY_P if self.kids == "impl" else vis(P)) if m & ATOMIC else P
         pair = mkpair(r_name(rid), lget(L0, "pos"), lget(L1, "pos"), kids, tag)
         return ok, z3.If(ok, Lt, Lo), z3.Unit(pair)
 
@@ -868,9 +872,10 @@ def _rule_wf_hints(self, run, L0, ok, L1, prs):  # noqa: N803
     p0, p1 = lget(L0, "pos"), lget(Lb, "pos")
     tg = lget(Lb, "tags")
     tag = z3.If(z3.Length(tg) > 0, OptStr.some_s(tg[z3.Length(tg) - 1]), OptStr.none_s)
-    kids = vis(P) if m & ATOMIC else P
+    kids = (EMPTY_P if self.kids == "impl" else vis(P)) if m & ATOMIC else P
     return [
         W4(r_name(rid), p0, p1, kids, tag, p0, p1),
+        W1(p0, p1),
         # vis() selects a sub-forest (the pairs produced under nested $/! rules): it preserves well-formedness
         z3.Implies(wf(P, p0, p1), wf(vis(P), p0, p1)),
     ]
@@ -1038,17 +1043,12 @@ class StackLoopSpec(TerminalSpec):
         w = self.word(run, L0)
         ok = SWp(w, lget(L0, "pos"))
         run.assume(z3.Implies(z3.Length(w) == 0, SWp(w, lget(L0, "pos")) == (lget(L0, "pos") <= z3.Length(INP))), "lemma.sw_empty instance")
-        return ok, z3.If(ok, self.success(advance(L0, z3.Length(w))), fail_effect(L0, z3.StringVal("?"))), EMPTY_P
-
-    def post(self, run: Run, pre: Any, out: Any) -> None:
         # G.3 needs: a successful match lies inside the input  (sw(w,p) => p + |w| <= |inp|, from the definition)
-        w = self.word(run, pre["L0"])
-        p = lget(pre["L0"], "pos")
         a = z3.String("lem_a")
         q = z3.Int("lem_p")
         run.oblige_lemma("sw_inside", z3.Implies(z3.And(q >= 0, sw(a, q)), q + z3.Length(a) <= z3.Length(INP)))
-        run.assume(z3.Implies(SWp(w, p), p + z3.Length(w) <= z3.Length(INP)), "lemma.sw_inside instance")
-        super().post(run, pre, out)
+        run.assume(z3.Implies(ok, lget(L0, "pos") + z3.Length(w) <= z3.Length(INP)), "lemma.sw_inside instance")
+        return ok, z3.If(ok, self.success(advance(L0, z3.Length(w))), fail_effect(L0, z3.StringVal("?"))), EMPTY_P
 
     def success(self, L):  # noqa: N803
         return L
@@ -1100,10 +1100,17 @@ class JoinLoopSpec(StackLoopSpec):
             z3.Implies(z3.Length(J(S, i)) == 0, SWp(J(S, i), p0) == (p0 <= z3.Length(INP))),
         ]
 
+    pos_var = "position"  # local holding the running position ("" = state.pos itself)
+
+    def position(self, run: Run):
+        if self.pos_var:
+            return z(run.frames[0].env[self.pos_var])
+        return lget(self.cur(run), "pos")
+
     def inv_common(self, run: Run, i):
         L0 = run.pre["L0"]  # noqa: N806
         S = self.seq_of(run, L0)  # noqa: N806
-        position = z(run.frames[0].env["position"])
+        position = self.position(run)
         done = self.J(S, i)
         return ("position", z3.And(position == lget(L0, "pos") + z3.Length(done), SWp(done, lget(L0, "pos"))))
 
@@ -1114,14 +1121,23 @@ class JoinLoopSpec(StackLoopSpec):
             return spec.facts_at(run, spec.index(run))
 
         def inv(run, g):
+            L0 = run.pre["L0"]  # noqa: N806
+            want = L0 if spec.pos_var else lset(L0, pos=lget(spec.cur(run), "pos"))
             return [
-                ("state", spec.cur(run) == run.pre["L0"]),
+                ("state", spec.cur(run) == want),
                 ("snaps", spec.snaps_same(run)),
                 ("pairs", spec.pairs_now(run) == run.pre["P0"]),
                 spec.inv_common(run, spec.index(run)),
+                *spec.inv_extra(run),
             ]
 
-        return {0: Loop(inv, facts=facts, modifies=lambda run: [])}
+        def modifies(run):
+            return [] if spec.pos_var else [(run.pre["st"], "pos")]
+
+        return {0: Loop(inv, facts=facts, modifies=modifies)}
+
+    def inv_extra(self, run: Run):
+        return []
 
 
 class PeekSliceSpec(JoinLoopSpec):
